@@ -41,6 +41,24 @@ prop("C05",
      ["that memoised values are correct", "thread interleavings (excluded by the property)"],
      COMMON_ASSUMPTIONS)
 
+prop("C02",
+     ["OW1", "OW2", "HD1", "RJ1"],
+     "The inheritance mechanism is a sharing discipline: object lists and segment objects are shared between segments. Decided: "
+     "(OW1) every store to a segment object's slots goes through an object created in the same activation (alias analysis; who-may-write), "
+     "(OW2) typestate of self.ordered_objects: mutated only after a fresh copy, helpers called only from the parser, shared index "
+     "dictionaries read-only, cache-key equality ordered and pairwise, (HD1) for each header kind x previous has_data value the object "
+     "left in the list has the has_data the header demands (path-sensitive abstract interpretation), (RJ1) the three forbidden "
+     "encodings raise.",
+     ["that the carried-over index values are the right ones for arbitrary histories", "lengths and data values"],
+     COMMON_ASSUMPTIONS)
+
+prop("C13",
+     ["OW3"],
+     "Purity: alias/in-place analysis of every scale method and the helpers it hands data to (astype(copy=False), views, out=, "
+     "augmented assignment, mutating methods, interprocedural summaries).",
+     ["numerical equality of each formula with its defining formula", "graph evaluation on concrete properties"],
+     COMMON_ASSUMPTIONS)
+
 # ---------------------------------------------------------------------------
 # MANIFEST texts
 LEVEL_TEXT = {
@@ -55,7 +73,14 @@ LEVEL_TEXT["C15"] = ("Claim (structural): byte order is threaded by hand through
 LEVEL_TEXT["C05"] = ("Claim (structural): independence of reads is a typestate property of generator code (position unknown after each "
                      "yield of the entry generator), decided for every path through the reader chain and all three data-reader classes; a test "
                      "must guess an interleaving, the analysis quantifies over all of them.")
+LEVEL_TEXT["C02"] = ("Partial claim (structural necessary conditions): copy-on-write and object-list sharing discipline, has_data typestate per "
+                     "header kind, rejection of forbidden encodings. A wrong copy/alias only shows on specific segment sequences; the alias "
+                     "and typestate analyses cover every path of the parser instead.")
+LEVEL_TEXT["C13"] = ("Partial claim: purity (never modifies raw data), dispatch/arity, lookup order and application points of scaling are decided "
+                     "structurally; numerical equality of formulas is not.")
 TECHNIQUE = {
+    "C02": "static analysis: alias/freshness dataflow, typestate abstract interpretation of the object list and has_data, control-dependence of raises",
+    "C13": "static analysis: interprocedural alias and in-place effect analysis; dispatch and role-flow rules",
     "C05": "static analysis: typestate (cursor P/U) abstract interpretation with generator continuations, single-writer and cache-pairing rules",
     "C15": "static analysis: interprocedural endianness dataflow over the call graph, default-argument trap, layout sibling comparison",
     "C20": "static analysis: CFG with exceptional edges, must-pass-through / dominance queries, ownership (who-may-open/close) rules",
